@@ -18,7 +18,7 @@ pub fn prop() -> Prop {
 fn spec() -> Spec {
     Spec {
         kinds: vec![Kind { name: "ik_complete", quick: 800_000, thorough: 20_000_000, serial: false }],
-        rule: "each case = generated non-degenerate 6-DOF robot (industrial, bundled, zero-heavy, negative lengths; 64 sign patterns; offsets) x joint vector q (uniform or placed close to the singularity margins); inverse(FK_ref(q)) must contain q mod 2pi, the wrist-flipped twin of every answer, no duplicates, and re-solving the pose of every answer must give the same set; cases with a singularity measure below the margin are inconclusive(near-singular); non-trivial = in-domain case with >= 1 answer; distinct = hash(robot, q)",
+        rule: "each case = generated non-degenerate 6-DOF robot (industrial, bundled, zero-heavy, negative lengths; 64 sign patterns; offsets) x joint vector q (uniform, round multiples of 15 degrees, or placed close to the singularity margins); the pose comes from the reference chain or the library's forward(), half of the time written with the negated quaternion; inverse(FK_ref(q)) must contain q mod 2pi, the wrist-flipped twin of every answer, no duplicates, and re-solving the pose of every answer must give the same set; cases with a singularity measure below the margin are inconclusive(near-singular); non-trivial = in-domain case with >= 1 answer; distinct = hash(robot, q)",
         assumptions: vec![
             "domain margins: |sin t5|, |sin(t3+psi3)| and wrist-centre distance from axis 1 / reach all >= 1e-3 (refmodel measures)",
             "match tolerance modulo 2pi: 1e-6 rad per joint when all margins >= 1e-2, else 1e-4",
@@ -52,7 +52,14 @@ fn run_case(_kind: &str, idx: u64, rng: &mut Rng, mon: &mut Mon, _tier: Tier) {
     let rp = robot.rp;
     let kin = OPWKinematics::new(to_params(&rp));
     let mut q = joints_uniform(rng, PI);
-    let placed = rng.usize(4);
+    // a fifth of the joint vectors consists of round angles (multiples of 15 degrees): flange
+    // orientations with exact zeros / equal entries, where matrix -> quaternion conversions change case
+    let round = rng.bool(0.2);
+    if round {
+        q = std::array::from_fn(|_| (rng.int(-12, 12) as f64 * 15.0).to_radians());
+        mon.count("round_angle_vectors");
+    }
+    let placed = if round { 1 } else { rng.usize(4) };
     // bias a quarter of the cases towards the margins
     if placed == 0 {
         let d = rng.sign() * rng.logu(1e-3, 5e-2);
@@ -78,10 +85,15 @@ fn run_case(_kind: &str, idx: u64, rng: &mut Rng, mon: &mut Mon, _tier: Tier) {
         mon.seen("sign_patterns", format!("{:06b}", robot.sign_pattern));
     }
     let tol = if mq >= 1e-2 { 1e-6 } else { 1e-4 };
-    let pose = fr_to_iso(&fk(&rp, &q));
+    // the pose as the reference chain gives it, as the library's own forward() gives it, or either of them
+    // written with the negated quaternion (q and -q are the same rotation)
+    let pose_src = rng.usize(4);
+    let pose = if pose_src % 2 == 0 { fr_to_iso(&fk(&rp, &q)) } else { kin.forward(&q) };
+    let pose = if pose_src >= 2 { Iso::from_parts(pose.translation, nalgebra::Unit::new_unchecked(-pose.rotation.into_inner())) } else { pose };
+    mon.count(&format!("pose_source.{}", ["reference_chain", "library_forward", "reference_chain_negated_quaternion", "library_forward_negated_quaternion"][pose_src]));
     let sols = kin.inverse(&pose);
     mon.count(&format!("branches.{}", sols.len()));
-    let detail = |what: &str, extra: serde_json::Value| json!({"robot": robot_json(&robot), "q": jf(&q), "min_margin": mq, "clause": what, "answers": sols.iter().map(|s| jf(s)).collect::<Vec<_>>(), "extra": extra});
+    let detail = |what: &str, extra: serde_json::Value| json!({"robot": robot_json(&robot), "q": jf(&q), "min_margin": mq, "pose_source": pose_src, "clause": what, "answers": sols.iter().map(|s| jf(s)).collect::<Vec<_>>(), "extra": extra});
 
     // 1. completeness
     if !sols.iter().any(|s| same_mod(s, &q, tol)) {
